@@ -311,3 +311,90 @@ Lemma usp_because_unfixed_wrong_size :
   (* 100 elements of 40 bytes that do not fit are accepted *)
   usp_because false [demo_region] (2^44 + 2^32 - 1000) 100 40 = Ok (2^44 + 2^32 - 1000).
 Proof. split; vm_compute; reflexivity. Qed.
+
+(* ---------- copy_memory_or_deny_access / copy_memory_or_grant_access (copy paths) ---------- *)
+Lemma w64_idem x : w64 (w64 x) = w64 x.
+Proof. unfold w64, M64. apply Z.mod_mod. lia. Qed.
+
+Lemma check_oa b : check b = Ok tt \/ check b = Abort.
+Proof. destruct b; [left|right]; reflexivity. Qed.
+
+Lemma check_range_oa g l p size : check_range g l p size = Ok tt \/ check_range g l p size = Abort.
+Proof.
+  unfold check_range.
+  destruct (negb (p =? 0)); cbn [check bind]; [|right; reflexivity].
+  destruct (negb g || (w64 size =? 0) || (p <=? w64 (p + w64 size - 1)))%bool; cbn [check bind]; [|right; reflexivity].
+  apply check_oa.
+Qed.
+
+Lemma verify_range_oa g l start count elsz :
+  (exists r, verify_range g l start count elsz = Ok r) \/ verify_range g l start count elsz = Abort.
+Proof.
+  unfold verify_range. destruct (negb (count =? 0)); cbn [check bind]; [|right; reflexivity].
+  destruct (start =? 0); [left; eexists; reflexivity|].
+  destruct (negb g || (count * elsz <? M64))%bool; cbn [check bind]; [|right; reflexivity].
+  destruct (check_range_oa g l start (w64 (count * elsz))) as [-> | ->]; cbn [bind]; [left; eexists; reflexivity|right; reflexivity].
+Qed.
+
+Lemma verify_range_some_nonnull g l start count elsz : start <> 0 ->
+  verify_range g l start count elsz <> Ok None.
+Proof.
+  intros Hs. unfold verify_range. destruct (negb (count =? 0)); cbn [check bind]; [|discriminate].
+  destruct (Z.eqb_spec start 0); [contradiction|].
+  destruct (negb g || (count * elsz <? M64))%bool; cbn [check bind]; [|discriminate].
+  destruct (check_range g l start (w64 (count * elsz))) as [[]| | |]; cbn [bind]; discriminate.
+Qed.
+
+(* a source buffer in sandbox s: the copy reads exactly num*elsz bytes, all inside s; a request whose
+   extent leaves s (or wraps) is refused before anything is read *)
+Lemma copy_or_deny_safe l s src num elsz fp :
+  world_ok l -> In s l -> inr s src = true -> 0 <= num -> 0 < elsz ->
+  copy_or_deny true l src num elsz = Ok fp ->
+  fp = [RD src (num * elsz)] /\ 0 < num /\ range_inside s src (num * elsz) = true.
+Proof.
+  intros Hw Hin Hs Hn He. unfold copy_or_deny.
+  destruct (world_ok_in l s Hw Hin) as (Hb & Hrs & Hend). apply inr_iff in Hs as Hs'.
+  destruct (verify_range true l src num elsz) as [[a|]| | |] eqn:E; cbn [bind]; try discriminate.
+  - destruct (verify_range_counted l s src num elsz a Hw Hin Hs Hn He E) as (-> & Hp & Hr).
+    intros H; inversion H; subst. split; [|split; assumption]. f_equal. f_equal.
+    apply w64_small.
+    unfold range_inside in Hr. apply andb_prop in Hr as [H1 H2]. apply Z.leb_le in H1. apply Z.leb_le in H2.
+    unfold M64 in *. nia.
+  - exfalso. apply (verify_range_some_nonnull true l src num elsz); [lia|exact E].
+Qed.
+
+Lemma copy_or_deny_refuses l s src num elsz :
+  world_ok l -> In s l -> inr s src = true -> 0 < num -> 0 < elsz ->
+  range_inside s src (num * elsz) = false -> copy_or_deny true l src num elsz = Abort.
+Proof.
+  intros Hw Hin Hs Hn He Hout. unfold copy_or_deny.
+  destruct (world_ok_in l s Hw Hin) as (Hb & Hrs & Hend). apply inr_iff in Hs as Hs'.
+  destruct (verify_range_oa true l src num elsz) as [[r E]|E]; rewrite E; cbn [bind]; [|reflexivity].
+  destruct r as [a|].
+  - destruct (verify_range_counted l s src num elsz a Hw Hin Hs ltac:(lia) He E) as (_ & _ & Hr). congruence.
+  - exfalso. apply (verify_range_some_nonnull true l src num elsz); [lia|exact E].
+Qed.
+
+(* copy_memory_or_grant_access (copy path): whatever address the back end's allocator returns, the bytes
+   written lie inside sandbox s and the bytes read form a good application-side range *)
+Lemma copy_or_grant_safe g l s total src num elsz ret fp :
+  world_ok l -> uniform l total -> total <= 2^63 -> In s l ->
+  0 < num -> 0 < elsz -> 0 < w64 (num * elsz) -> 0 <= src -> src + w64 (num * elsz) <= M64 ->
+  copy_or_grant g l s total src num elsz ret = Ok fp -> fp <> [] ->
+  exists p, fp = [WR p (w64 (num * elsz)); RD src (w64 (num * elsz))] /\ inr s p = true /\
+            range_inside s p (w64 (num * elsz)) = true /\ range_good l src (w64 (num * elsz)) = true.
+Proof.
+  intros Hw Hu Ht Hin Hn He Hsz Hs0 Hsw. unfold copy_or_grant.
+  destruct (num <=? 4294967295); cbn [check bind]; [|discriminate].
+  destruct (malloc_in_sandbox l s true num elsz ret) as [p| | |] eqn:Em; cbn [bind]; try discriminate.
+  destruct (Z.eqb_spec p 0) as [->|Hp]; [intros H Hne; inversion H; subst; congruence|].
+  intros H _.
+  assert (Hinp : inr s p = true).
+  { unfold malloc_in_sandbox in Em. cbn [negb] in Em. destruct (negb (num =? 0)); cbn [check bind] in Em; [|discriminate].
+    destruct (unsandbox s ret =? 0) eqn:Ez; [inversion Em; subst; lia|].
+    destruct (inr s (unsandbox s ret)) eqn:Ei; cbn [check bind] in Em; [|discriminate].
+    destruct (same_sbx l (unsandbox s ret) _); cbn [check bind] in Em; [|discriminate]. inversion Em; subst. exact Ei. }
+  destruct (rl_memcpy_safe g l s total p src (w64 (num * elsz)) fp Hw Hu Ht Hin Hinp) as (F & R1 & R2);
+    rewrite ?w64_idem; try assumption.
+  exists p. rewrite w64_idem in F, R1, R2. repeat split; assumption.
+Qed.
